@@ -558,7 +558,7 @@ func c20R3(p *Prog, r *Report) {
 				continue
 			}
 			if id, ok := ast.Unparen(c.Fun).(*ast.Ident); ok && id.Name == "append" && len(c.Args) >= 2 {
-				if base := objOf(info, c.Args[0]); base != nil && base.Name() == "services" {
+				if base := objOf(info, c.Args[0]); base != nil && namedTypeName(sliceElem(base.Type())) == "Service" {
 					for _, a := range c.Args[1:] {
 						if objOf(info, a) == mgrObj {
 							appended = true
